@@ -10,8 +10,8 @@ import sqlite3
 
 from vcheck import Machinery, pmap
 
-_TOK = re.compile(r"\s+|[A-Za-z_][A-Za-z_0-9.]*|\?|\(|\)|,|!=|<=|>=|=|<|>|[01]\b")
-_WORDS = {'SELECT', 'id', 'a', 'b', 'FROM', 't', 'WHERE', 'AND', 'OR', 'IN', 'NOT', 'IS', 'NULL', 'LIKE', 'ORDER',
+_TOK = re.compile(r"\s+|[A-Za-z_][A-Za-z_0-9.]*|\?|%s|\(|\)|,|!=|<=|>=|=|<|>|[01]\b")
+_WORDS = {'SELECT', 'id', 'a', 'b', '_b', 'FROM', 't', 'tu', 'WHERE', 'AND', 'OR', 'IN', 'NOT', 'IS', 'NULL', 'LIKE', 'ORDER',
           'BY', 'DESC', 'FALSE'}
 
 
@@ -46,6 +46,24 @@ class _Conn:
         return _Cur(self._conn.cursor(), self.log)
 
 
+class _PctCur(_Cur):
+    """cursor of a driver with the 'format' parameter style: one %s per bound value, nothing else"""
+    def execute(self, sql, params=()):
+        self._log.append((sql, list(params)))
+        if '?' in sql:
+            raise sqlite3.ProgrammingError("'?' in a statement for a %s-style driver")
+        return self._c.execute(sql.replace('%s', '?'), params)
+
+
+class _PctConn(_Conn):
+    """recognised by SqlMethod as a mysql.connector connection (the type name is what it looks at)"""
+    def cursor(self):
+        return _PctCur(self._conn.cursor(), self.log)
+
+
+_PctConn.__module__ = 'mysql.connector.connection'
+
+
 _DB = {}
 
 
@@ -54,12 +72,26 @@ def _db(table):
     if key not in _DB:
         conn = sqlite3.connect(':memory:')
         conn.execute('CREATE TABLE t (id INTEGER PRIMARY KEY, a, b)')
+        conn.execute('CREATE TABLE tu (id INTEGER PRIMARY KEY, a, _b)')     # same rows, column name starts with '_'
         for r in table:
             conn.execute('INSERT INTO t VALUES (?, ?, ?)', (r['id'], _val(r['a']), _val(r['b'])))
+            conn.execute('INSERT INTO tu VALUES (?, ?, ?)', (r['id'], _val(r['a']), _val(r['b'])))
         conn.commit()
         _DB.clear()
         _DB[key] = conn
     return _DB[key]
+
+
+def _ren(c, under):
+    """the same condition over table tu, where column b is called _b"""
+    if not under:
+        return c
+    c = dict(c)
+    if c.get('f') == 'b':
+        c['f'] = '_b'
+    if 'cs' in c:
+        c['cs'] = [_ren(x, under) for x in c['cs']]
+    return c
 
 
 def _simple(c, variant):
@@ -103,11 +135,14 @@ def _shape(c):
 
 
 def run_case(job):
-    case, table, variant = job
+    case, table, variant = job[:3]
+    style, under = (job[3], job[4]) if len(job) > 3 else (0, 0)
     from ak.mtd_sql import SqlMethod
-    conn = _Conn(_db(table))
+    conn = (_PctConn if style else _Conn)(_db(table))
+    mark = '%s' if style else '?'
     args, kwargs = [], {}
     for c in case['conds']:
+        c = _ren(c, under)
         k = c['k']
         if k == 'none':
             args.append(None)
@@ -120,7 +155,7 @@ def run_case(job):
             args.append(SqlMethod._or(*subs))
         else:
             args.append(_simple(c, variant))
-    m = SqlMethod('SELECT id, a, b FROM t', order_by='id')
+    m = SqlMethod('SELECT id, a, _b FROM tu' if under else 'SELECT id, a, b FROM t', order_by='id')
     kw = dict(kwargs)
     if case['desc']:
         kw['_order_by'] = 'id DESC'
@@ -128,7 +163,7 @@ def run_case(job):
         if variant % 2:
             got = m.list(conn, *args, _as_scalars=True, **kw)
         else:
-            got = [r.id for r in m.all(conn, *args, **kw)]
+            got = [r[0] for r in m.all(conn, *args, **kw)]
     except Exception as e:
         return 'SqlMethod raised %s: %s (args %r %r)' % (type(e).__name__, str(e)[:100], args, kwargs), None
     want = case['rows']
@@ -136,36 +171,36 @@ def run_case(job):
         return 'rows %s, three-valued logic selects %s (args %r %r; sql %r)' % (got, want, args, kwargs, conn.log[-1]), None
     sql, params = conn.log[-1]
     rest = _TOK.sub('', sql)
-    words = set(re.findall(r'[A-Za-z_][A-Za-z_0-9.]*', sql)) - _WORDS
+    words = set(re.findall(r'[A-Za-z_][A-Za-z_0-9.]*', sql.replace('%s', ' '))) - _WORDS
     if rest or words:
         return 'SQL text contains something that is not part of the statement skeleton: %r (sql %r)' % (rest or words, sql), None
-    if sql.count('?') != len(params):
-        return '%d placeholders but %d bound values (sql %r)' % (sql.count('?'), len(params), sql), None
+    if sql.count(mark) != len(params) or sql.count('%s' if mark == '?' else '?'):
+        return '%d placeholders %r but %d bound values (sql %r)' % (sql.count(mark), mark, len(params), sql), None
     wantb = [_val(v) for v in case['binds']]
     if params != wantb:
         return 'bound values %r, expected %r in placeholder order (sql %r)' % (params, wantb, sql), None
     # one / one_or_none
     try:
         r1 = m.one_or_none(conn, *args, **kw)
-        o1 = 'none' if r1 is None else r1.id
+        o1 = 'none' if r1 is None else r1[0]
     except ValueError:
         o1 = 'ValueError'
     w1 = 'none' if not want else (want[0] if len(want) == 1 else 'ValueError')
     if o1 != w1:
         return 'one_or_none gives %r, expected %r' % (o1, w1), None
     try:
-        o2 = m.one(conn, *args, **kw).id
+        o2 = m.one(conn, *args, **kw)[0]
     except ValueError:
         o2 = 'ValueError'
     w2 = want[0] if len(want) == 1 else 'ValueError'
     if o2 != w2:
         return 'one gives %r, expected %r' % (o2, w2), None
-    return None, (json.dumps([_shape(c) for c in case['conds']] + [case['desc'], variant % 60]), sql)
+    return None, (json.dumps([_shape(c) for c in case['conds']] + [case['desc'], variant % 60, style, under]), sql)
 
 
 def run(ctx):
     ctx.assumptions += ['sqlite3 columns without type affinity; value pool NULL, 0, 1, "", "a", "o\'q", "%"; LIKE without '
-                        'ESCAPE; sets only as 0/1-element containers (their iteration order is unspecified)']
+                        'ESCAPE; the %s placeholder style is exercised through a sqlite connection whose type name contains mysql.connector and whose cursor maps %s to ?; sets only as 0/1-element containers (their iteration order is unspecified)']
     r = ctx.tlc('sql/SqlFilter.tla', 'SPECIFICATION Spec\nCHECK_DEADLOCK FALSE\nCONSTANTS\n  MaxConds = 1\n  Rich = TRUE\n'
                 '  Emit = TRUE\nINVARIANT EmptyListFacts\nINVARIANT BindCountByShape\n', workers=4, timeout=3000)
     cases = [c for c in r.printed if isinstance(c, dict)]
@@ -185,18 +220,22 @@ def run(ctx):
     cases += more
     jobs = []
     for i, c in enumerate(cases):
-        for variant in ((i % 60, (i + 7) % 60, (i + 31) % 60) if i < n1 else (i % 60,)):
-            jobs.append((c, table, variant))
+        if i < n1:
+            for k, variant in enumerate((i % 60, (i + 7) % 60, (i + 31) % 60, (i + 13) % 60)):
+                jobs.append((c, table, variant, k % 2, k // 2))       # '?' / '%s' placeholders x column b / _b
+        else:
+            jobs.append((c, table, i % 60, (i // 2) % 2, (i // 4) % 2))
     res = pmap(run_case, jobs, chunk=200)
     shapes = {}
-    for (c, _, variant), (prob, sh) in zip(jobs, res):
+    for job, (prob, sh) in zip(jobs, res):
+        c, variant = job[0], job[2]
         if prob:
-            ctx.violation({'case': {k: c[k] for k in ('conds', 'desc', 'rows', 'binds')}, 'table': table, 'variant': variant}, prob)
+            ctx.violation({'case': {k: c[k] for k in ('conds', 'desc', 'rows', 'binds')}, 'table': table, 'variant': variant, 'style': job[3], 'under': job[4]}, prob)
         elif sh:
             key, sql = sh
             if key in shapes and shapes[key][0] != sql:
                 ctx.violation({'case': {k: c[k] for k in ('conds', 'desc', 'rows', 'binds')}, 'table': table,
-                               'variant': variant, 'other_sql': shapes[key][0]},
+                               'variant': variant, 'style': job[3], 'under': job[4], 'other_sql': shapes[key][0]},
                               'same condition shape with different values gives different SQL text: %r vs %r' % (sql, shapes[key][0]))
             shapes.setdefault(key, (sql, c))
     bad = json.loads(json.dumps(cases[5]))
@@ -212,4 +251,4 @@ def run(ctx):
 
 
 def replay(ctx, case):
-    return run_case((case['case'], case['table'], case['variant']))[0]
+    return run_case((case['case'], case['table'], case['variant'], case.get('style', 0), case.get('under', 0)))[0]
